@@ -261,7 +261,10 @@ macro_rules! ops_common {
         }
         fn debug(&self, sink: &mut StackSink) -> bool {
             let t = self.get();
-            lib(|| write!(sink, "{:?}", t)).is_ok()
+            // both the compact and the pretty formatter, into stack sinks
+            let mut pretty = StackSink { buf: [0; 8192], len: 0 };
+            let ok2 = lib(|| write!(pretty, "{:#?}", t)).is_ok();
+            lib(|| write!(sink, "{:?}", t)).is_ok() && ok2
         }
         fn fin64(self: Box<Self>) -> u64 {
             let t = self.into_inner();
@@ -750,6 +753,18 @@ fn run_history(lines: &[&str], out: &mut String) {
                 let (f1, f2) = match t[5] {
                     "u8" => go!(v.first().copied().unwrap_or(0)),
                     "u32" => go!(u32::from_le_bytes(pad::<4>(&v))),
+                    "u16" => go!(u16::from_le_bytes(pad::<2>(&v))),
+                    "i32" => go!(i32::from_le_bytes(pad::<4>(&v))),
+                    "usize" => go!(u64::from_le_bytes(pad::<8>(&v)) as usize),
+                    "isize" => go!(u64::from_le_bytes(pad::<8>(&v)) as isize),
+                    "bool" => go!(v.first().copied().unwrap_or(0) & 1 == 1),
+                    "char" => go!(char::from_u32(u32::from_le_bytes(pad::<4>(&v)) % 0xD800).unwrap_or('x')),
+                    "slice32" => {
+                        let w: Vec<u32> = v.chunks(4).map(|c| u32::from_le_bytes(pad::<4>(c))).collect();
+                        go!(w.as_slice())
+                    }
+                    "array8" => go!(pad::<8>(&v)),
+                    "option" => go!(if v.is_empty() { None } else { Some(u64::from_le_bytes(pad::<8>(&v))) }),
                     "u64" => go!(u64::from_le_bytes(pad::<8>(&v))),
                     "i64" => go!(i64::from_le_bytes(pad::<8>(&v))),
                     "u128" => go!(u128::from_le_bytes(pad::<16>(&v))),
